@@ -20,7 +20,7 @@ import re
 _HEX = re.compile(r'[0-9a-f]{32}')
 ROOT = 'tape_recorder_recordings/'
 PREFIXES = ['', 'a', 'ab', 'a/b']
-LETTERS = ['A.create', 'A.save', 'A.resave', 'A.get', 'A.meta', 'A.list', 'A.close', 'A.with', 'B.save', 'B.close']
+LETTERS = ['A.create', 'A.save', 'A.resave', 'A.get', 'A.meta', 'A.list', 'A.close', 'A.with', 'B.save', 'B.close', 'A.saveagain', 'A.withraise', 'A.metaorphan']
 
 
 def bounds(tier):
@@ -106,6 +106,10 @@ def run_case(case):
             c.save_recording(r)
     cl = fakes3.FAKE.client('s3')
     kp = (prefix + '/') if prefix else ''
+    # a recording whose writer died between the two puts of its save: full object present, metadata object missing
+    import zlib
+    orphan = 'Op/20200101/%032x' % 0xdead
+    st.objs[own_roots(prefix)[0] + orphan] = (zlib.compress(b'{"k": ["orphan"], "_metadata": {"owner": "crashed"}}'), st.clock(), {})
     for key in ('unrelated/x', ROOT + 'NOTES.txt', ROOT + kp + 'NOTES.txt', ROOT + kp + 'fullish/x', ROOT + kp + 'metadata_backup/x', 'tape_recorder_recordingsX/full/y'):
         cl.put_object('bucket', key, b'foreign ' + key.encode())
     cat = case.get('cat', 'Op')
@@ -157,6 +161,7 @@ def run_case(case):
                     s['cur'] = None
                 c.save_recording(r)
                 s['saved'].append(r.id)
+                s['last_obj'] = r
             elif op == 'get':
                 ids = list(c.iter_recording_ids('Op'))
                 if ids:
@@ -168,6 +173,23 @@ def run_case(case):
             elif op == 'list':
                 list(c.iter_recording_ids('Op', limit=2))
                 list(c.iter_recording_ids('Op', random_results=True))
+            elif op == 'saveagain':   # the very same recording object is saved once more, unchanged
+                attempted = True
+                if s.get('last_obj') is not None:
+                    c.save_recording(s['last_obj'])
+            elif op == 'metaorphan':
+                from playback.exceptions import NoSuchRecording
+                try:
+                    c.get_recording_metadata(orphan)
+                except NoSuchRecording:
+                    pass
+            elif op == 'withraise':
+                attempted = True
+                try:
+                    with c:
+                        raise KeyError('the block fails')
+                except KeyError:
+                    pass
             elif op == 'close':
                 attempted = True
                 c.close()
@@ -195,7 +217,7 @@ def run_case(case):
             if not owns(pfx, key):
                 viols.append(viol('outside-own-prefix:%s:%s' % (op, kind), '%s of prefix %r %s key %r outside its own roots %s' % (op, pfx, kind, key, own_roots(pfx)), own_roots(pfx), key))
                 break
-        if op in ('close', 'with') and raised is None:
+        if op in ('close', 'with', 'withraise') and raised is None:
             after = st.snapshot()
             if (not ro) and tr:
                 left = [k for k in after if owns(pfx, k)]
@@ -209,6 +231,8 @@ def run_case(case):
             elif muts:
                 viols.append(viol('close:mutated', 'closing a %s cassette must not change the bucket' % ('read-only' if ro else 'non-transient'), [], muts))
         # (iii) crash points of a save: after each individual mutation everything discoverable is fetchable
+        if op == 'saveagain' and raised is None:
+            views_ok(st.snapshot(), 'after saving the same recording object again (%s)' % LETTERS[li], viols, cats=('Op', cat))
         if op in ('save', 'resave') and isinstance(raised, IOError):
             views_ok(st.snapshot(), 'after a save whose put #%s was rejected (%s)' % (case.get('fail_put'), LETTERS[li]), viols, cats=('Op', cat))
         if op in ('save', 'resave') and muts:
